@@ -33,6 +33,9 @@ def generate(seed, tier):
         force["exact"] = False
     if rng.random() < 0.35:
         force["grid"] = True
+    if rng.random() < 0.15:
+        force["mixed"] = True          # events + explicit ODE drift under tau-leap
+        force["exact"] = False
     case = jump.gen_case(S, tier, PROP, force)
     # make the tail-count fault frequent in scripted tau runs
     r = case["env"]["R"]
